@@ -19,8 +19,8 @@ class RequirementsTxtWriter(DependencyWriter):
 
         original_lines = lines.copy()
         # keep the line ending convention of the file
-        newline = "\r\n" if original_lines[-1].endswith("\r\n") else "\n"
-        if not original_lines[-1].endswith("\n"):
+        newline = "\r\n" if original_lines and original_lines[-1].endswith("\r\n") else "\n"
+        if original_lines and not original_lines[-1].endswith("\n"):
             original_lines[-1] += newline
 
         requirement_lines = []
